@@ -51,8 +51,18 @@ FrozenClauses(e) ==
        <<"P08.hashable", e.exc = "" => e.hashable>>,
        <<"P08.identical_code_equal_data", e.exc = "" => (e.twice_eq /\ e.twice_hash)>> >>
 
+\* "perturb": data decoded from two real code objects that differ in exactly one attribute.
+\* p = <<what, equal, hash equal, to_code identical, is a constant swap>>
+PerturbClauses(e) ==
+    << <<"P08.noraise", e.exc = "">>,
+       \* equal CodeData encode to identical code objects (and hash alike)
+       <<"P08.equal_implies_identical", \A i \in DOMAIN e.perts : e.perts[i][2] => (e.perts[i][3] /\ e.perts[i][4])>>,
+       \* a constant replaced by an ==-equal constant of another type / sign is another value
+       <<"P08.type_exact", \A i \in DOMAIN e.perts : e.perts[i][5] => ~e.perts[i][2]>> >>
+
 Failing(e) ==
-    LET cs == IF e.kind = "pairs" THEN PairClauses(e) ELSE IF e.kind = "frozen" THEN FrozenClauses(e) ELSE <<>>
+    LET cs == IF e.kind = "pairs" THEN PairClauses(e) ELSE IF e.kind = "frozen" THEN FrozenClauses(e)
+              ELSE IF e.kind = "perturb" THEN PerturbClauses(e) ELSE <<>>
     IN SelectSeq([i \in DOMAIN cs |-> IF cs[i][2] THEN "" ELSE cs[i][1]], LAMBDA x: x # "")
 
 Init == l = 1
